@@ -242,13 +242,25 @@ func (x *wideCtx) wideOp(op Op, k **chainkit.Kit) bool {
 			defer func() {
 				if e := recover(); e != nil {
 					x.wr.Results = append(x.wr.Results, "restart panic: "+fmt.Sprint(e))
+					x.wr.RestartPanic = fmt.Sprint(e)
 					x.wr.Err = "clean Close + NewChainExt inside the history panics: " + fmt.Sprint(e)
 				}
 			}()
+			pre := stateOf((*k).Ch)
 			(*k).Ch.Close()
+			unlockDir() // client/main.go: sys.UnlockDatabaseDir() after CloseBlockChain
 			s.mu.Lock()
 			s.saveAct, s.started = false, s.cnt["utxo.save:begin"] // Close has waited for its own snapshot
+			opIdx, nsub := s.opIdx, s.nsub
 			s.mu.Unlock()
+			if x.w.Lib {
+				// the directory of a clean shutdown inside the history: re-opened later by fresh processes (miss3.go closedRestarts)
+				cd := closedDir{Dir: fmt.Sprintf("%s/%s/closed%d/", filepathDir(x.wr.Snaps), "inhist", len(x.wr.Closed)), Pre: pre, Label: "clean-close-inside-history", OpIdx: opIdx, NSub: nsub}
+				if copyTree(x.wr.Dir, cd.Dir) == nil {
+					x.wr.Closed = append(x.wr.Closed, cd)
+				}
+			}
+			lockDir(x.wr.Dir)
 			*k = newKitOpt(x.wr.Dir, x.w.MaxDat)
 		}()
 	default:
@@ -478,10 +490,12 @@ func (h *Harness) cleanRestart(w Workload, wr *WlRun, blocksFile string) {
 	if copyTree(wr.Dir, dir) != nil {
 		return
 	}
+	had := h.viewOf(dir).lockHas // a clean shutdown removes the lock file: the restart has to create it
 	c := runChild("client", dir, blocksFile)
 	h.nChild++
 	r.Eval("clean-restart/"+w.Shape, w.Name+"|clean-close")
 	ht := Hit{N: 0, Name: "clean-close", Idx: 1, NSub: len(wr.Names)}
+	h.lockTie(w, ht, had, c)
 	rep := map[string]interface{}{"case": Case{Workload: w.Name, Mode: "clean"}, "ops": w.Ops, "child": c, "expected_final": wr.Final}
 	switch {
 	case c.Open != "ok":
